@@ -646,18 +646,16 @@ class Renderer:
             return lines
         if k == "asg" and not self.is_inline(n["e"]):
             e = n["e"]
-            if e["k"] == "map":
+            if e["k"] == "map" and any(v["k"] == "fn" and len(v["body"].get("xs", [])) > 1 for v in e["vs"] + e.get("mvs", [])):
                 # guide (Maps): block syntax, each entry on its own indented line; a function value may have a block body
                 lines = [pad + n["n"] + " ="]
                 p1 = self.ind * (depth + 1)
                 for kk, v in list(zip(e["ks"], e["vs"])) + list(zip(e.get("mks", []), e.get("mvs", []))):
-                    if self.is_inline(v):
-                        lines.append(p1 + "%s: %s" % (kk, self.paren(v)))
-                    elif v["k"] == "fn":
+                    if v["k"] == "fn" and not self.is_inline(v):
                         lines.append(p1 + "%s: %s" % (kk, self.fn_head(v)))
                         lines += self.block(v["body"], depth + 2)
                     else:
-                        raise ValueError("map entry that needs a block")
+                        lines.append(p1 + "%s: %s" % (kk, self.paren(v)))
                 return lines
             if e["k"] == "fn":
                 return [pad + n["n"] + " = " + self.fn_head(e)] + self.block(e["body"], depth + 1)
